@@ -1499,6 +1499,9 @@ CHAIN_BASES = [
     ('php 2 1', ['php', '2', '1'], lambda L, fc: L.PigeonholePrinciple(2, 1, formula_class=fc)),
     ('op 2 --plant', ['op', '2', '--plant'], lambda L, fc: L.OrderingPrinciple(2, plant=True, formula_class=fc)),
     ('count 3 2', ['count', '3', '2'], lambda L, fc: L.CountingPrinciple(3, 2, formula_class=fc)),
+    # variables but not a single clause: a transformation still has its variables to replace
+    ('ram 3 3 2', ['ram', '3', '3', '2'], lambda L, fc: L.RamseyNumber(3, 3, 2, formula_class=fc)),
+    ('ptn 3', ['ptn', '3'], lambda L, fc: L.PythagoreanTriples(3, formula_class=fc)),
 ]
 
 # DAG files for kthlist2pebbling (text, meaning)
